@@ -253,12 +253,20 @@ var byteClasses = []byteClass{
 	{"latin1", func(r *rand.Rand) []byte {
 		return bytes.Repeat([]byte{[]byte{0xe9, 0xfc, 0xe4, 0xa0, 0xff, 0xc9}[r.Intn(6)]}, 1+r.Intn(4))
 	}},
-	{"cont", func(r *rand.Rand) []byte { return bytes.Repeat([]byte{[]byte{0x80, 0xbf, 0x9f}[r.Intn(3)]}, 1+r.Intn(4)) }},
-	{"truncseq", func(r *rand.Rand) []byte { return [][]byte{{0xc3}, {0xe2, 0x82}, {0xf0, 0x9f, 0x98}, {0xc8}}[r.Intn(4)] }},
-	{"grow", func(r *rand.Rand) []byte { return bytes.Repeat([]byte([]string{"\u023a", "\u023e"}[r.Intn(2)]), 1+r.Intn(6)) }}, // 2 -> 3 bytes under ToLower
+	{"cont", func(r *rand.Rand) []byte {
+		return bytes.Repeat([]byte{[]byte{0x80, 0xbf, 0x9f}[r.Intn(3)]}, 1+r.Intn(4))
+	}},
+	{"truncseq", func(r *rand.Rand) []byte {
+		return [][]byte{{0xc3}, {0xe2, 0x82}, {0xf0, 0x9f, 0x98}, {0xc8}}[r.Intn(4)]
+	}},
+	{"grow", func(r *rand.Rand) []byte {
+		return bytes.Repeat([]byte([]string{"\u023a", "\u023e"}[r.Intn(2)]), 1+r.Intn(6))
+	}}, // 2 -> 3 bytes under ToLower
 	{"doti", repN("\u0130", 1, 4)},   // shrinks under ToLower
 	{"kelvin", repN("\u212a", 1, 4)}, // Kelvin sign: 3 bytes -> 'k'
-	{"combining", func(r *rand.Rand) []byte { return []byte([]string{"e\u0301", "\u0301\u0301", "a\u0300\u0316", "\u200d"}[r.Intn(4)]) }},
+	{"combining", func(r *rand.Rand) []byte {
+		return []byte([]string{"e\u0301", "\u0301\u0301", "a\u0300\u0316", "\u200d"}[r.Intn(4)])
+	}},
 	{"nul", repN("\x00", 1, 3)},
 	{"upper", func(r *rand.Rand) []byte { return []byte([]string{"\u1e9e", "\u00df", "\ufb01", "\u0149"}[r.Intn(4)]) }}, // change length under ToUpper / special casing
 	{"longrun", func(r *rand.Rand) []byte {
